@@ -30,6 +30,8 @@ def conv_val(v):
         return ("bool", v["b"])
     if "m" in v:
         return ("map", [(k, conv_val(x)) for k, x in v["m"]])
+    if "l" in v:
+        return ("arr", [conv_val(x) for x in v["l"]])
     if "e" in v:
         return ("error",)
     if "a" in v:
@@ -42,11 +44,23 @@ def has_other(v):
         return True
     if v[0] == "map":
         return any(has_other(x) for _, x in v[1])
+    if v[0] == "arr":
+        return any(has_other(x) for x in v[1])
     return False
+
+
+NULLCLS = "auto-extend-deepen-converts-null-constant"
 
 
 def conv_obs(res):
     """driver answer -> {"class": ok|mlr_error|unparseable, "out": [("r", rec) | ("s", line)]}"""
+    o = conv_obs1(res)
+    if res.get("null_corrupted"):
+        o["null_corrupted"] = True
+    return o
+
+
+def conv_obs1(res):
     if res["status"] != "ok":
         return {"class": "mlr_error", "stderr": res.get("err", "")[-400:]}
     out = []
@@ -144,6 +158,8 @@ def cq_val(v):
         return f"(VBool {coq_bool(v[1])})"
     if k == "map":
         return "(VMap " + cq_amap(v[1]) + ")"
+    if k == "arr":
+        return "(VArr [" + "; ".join(cq_val(x) for x in v[1]) + "])"
     if k == "error":
         return "VError"
     if k == "absent":
@@ -261,6 +277,13 @@ def probes(ctx):
          "reference-dsl-output-statements.md: emit1/emit send the variables' CURRENT values to the output record stream"),
         ("emit1-emits-map-by-reference", 'end{m = {"x": 1}; emit1 m; m["x"] = 2; emit1 m}', [], [R(("x", ("int", 1))), R(("x", ("int", 2)))],
          "same, local map"),
+        # fix 310ab990d (clone c14-repo): xs[n+1][k] = v converted the package-level NULL constant in place
+        (NULLCLS, 'end{xs = []; xs[1]["k"] = 5; ys = [7]; ys[2]["j"] = 6; emit1 {"r": ys}}', [],
+         [R(("r", ("arr", [("int", 7), ("map", [("j", ("int", 6))])])))],
+         "reference-main-arrays.md auto-extend: a write one past the end grows THAT array by one; other arrays' new elements are unaffected"),
+        # fix 600e7ca15 (clone c14-repo): $[[n]] / $[[[n]]] read in a function called from an end block dereferenced the nil record
+        ("positional-read-without-record-panics", 'func f() { return typeof($[[1]]) . typeof($[[[1]]]) } end { print f() }', [], [("s", "absentabsent")],
+         "reference-dsl-variables.md: field references outside the record context are absent"),
     ]
     cases = [{"text": prog + "\n", "inputs": ins, "quiet": False} for _, prog, ins, _, _ in table]
     obs = [run_batch(ctx, [c])[0] for c in cases]     # one process each: a corrupted singleton must not leak into the next witness
@@ -294,7 +317,7 @@ def run(ctx):
         levels = P.gen_precedence(REPO)
     ctx.cov["precedence_levels_from_bnf"] = [[ops, a, k] for ops, a, k in levels]
     forbidden_gate(ctx, ["Base", "C14"])
-    ok, why = check_props(ctx, "C14/Props.v", ["C14/Harness.vo", "C14/Proofs.vo", "C14/StackProofs.vo", "C14/PrecProofs.vo", "C14/InterpProofs.vo", "C14/ScopeProofs.vo", "C14/DepthProofs.vo"])
+    ok, why = check_props(ctx, "C14/Props.v", ["C14/Harness.vo", "C14/Proofs.vo", "C14/StackProofs.vo", "C14/PrecProofs.vo", "C14/InterpProofs.vo", "C14/ScopeProofs.vo", "C14/DepthProofs.vo", "C14/ArrayProofs.vo"])
     bad, trees, block = P.behavioural_tie(ctx, 150 if ctx.tier == "quick" else 3000)
     if bad:
         ctx.violation(bad, found_input="expression" in bad)
@@ -432,7 +455,8 @@ def stack_tie(ctx):
 def cell_values():
     err = ("bin", "+", ("int", 1), ("str", "a"))
     return [("int", 3), ("int", -2), ("int", 0), ("bool", True), ("bool", False), ("str", ""), ("str", "abc"), ("str", "3"), ("str", "B"),
-            ("maplit", []), ("maplit", [(("str", "a"), ("int", 1))]), err, ("oos", "nosuch")]
+            ("maplit", []), ("maplit", [(("str", "a"), ("int", 1))]), err, ("oos", "nosuch"),
+            ("arrlit", []), ("arrlit", [("int", 1), ("str", "b")])]
 
 
 def cells(ctx, bits):
@@ -444,15 +468,57 @@ def cells(ctx, bits):
         p = {"funcs": [], "begin": [], "main": [], "end": [body]}
         return {"prog": p, "text": G.mlr_prog(p), "inputs": [], "quiet": False}
     ismap = lambda v: v[0] == "maplit"
+    isarr = lambda v: v[0] == "arrlit"
     for op in ["+", "-", "*", ".", "==", "!=", "<", "<=", ">", ">="]:
-        # outside the modelled fragment: map.attribute access (map on the left of the dot), map-to-map comparison
+        # outside the modelled fragment: map.attribute access (map on the left of the dot), map-to-map comparison, array == array
         cases.append(prog_of([("bin", op, a, b) for a in vals for b in vals
-                              if not (op == "." and ismap(a)) and not (op in G.CMP and ismap(a) and ismap(b))]))
+                              if not (op == "." and ismap(a)) and not (op in G.CMP and ismap(a) and ismap(b))
+                              and not (op in ("==", "!=") and isarr(a) and isarr(b))]))
     cases.append(prog_of([("and", a, b) for a in vals for b in vals]))
     cases.append(prog_of([("or", a, b) for a in vals for b in vals]))
     cases.append(prog_of([("not", a) for a in vals] + [("neg", a) for a in vals] + [("coal", a, b) for a in vals for b in vals[:4]]
                          + [("fun1", fn, a) for fn in G.FUN1 for a in vals]
-                         + [("tern", a, ("int", 1), ("int", 2)) for a in vals] + [("index", a, b) for a in vals for b in vals if a[0] in ("maplit", "oos", "bool") or (a[0] == "int" and a[1] >= 0)]))
+                         + [("tern", a, ("int", 1), ("int", 2)) for a in vals] + [("index", a, b) for a in vals for b in vals if not isarr(b) and (a[0] in ("maplit", "oos", "bool", "arrlit") or (a[0] == "int" and a[1] >= 0))]))
+    # arrays: reads at every index class, slices of arrays and strings with every bound class
+    five = ("arrlit", [("int", 10), ("int", 20), ("str", "c"), ("int", 40), ("int", 50)])
+    idxs = [("int", i) for i in (-7, -6, -5, -2, -1, 0, 1, 2, 5, 6, 9)]
+    cases.append(prog_of([("index", five, i) for i in idxs] + [("index", ("index", ("arrlit", [("int", 1), ("arrlit", [("int", 2), ("int", 3)])]), ("int", 2)), i) for i in idxs[3:8]]))
+    bounds = idxs + [None, ("str", ""), ("str", "x"), ("oos", "nosuch"), ("bool", True)]
+    if ctx.tier == "quick":
+        bounds = [("int", i) for i in (-6, -5, -2, -1, 0, 1, 2, 5, 6)] + [None, ("str", "x"), ("oos", "nosuch")]
+    for base in [five, ("str", "hello"), ("str", "h\u00e9llo"), ("str", ""), ("int", 3), ("maplit", [(("str", "a"), ("int", 1))]), ("oos", "nosuch"), ("arrlit", [])]:
+        cases.append(prog_of([("slice", base, lo, hi) for lo in bounds for hi in bounds]))
+    # indexed assignment / unset on arrays and auto-create below maps: each cell in its own function (a failing assignment
+    # makes the function return an error value instead of ending the program)
+    inits = [("arrlit", []), ("arrlit", [("int", 1), ("int", 2), ("int", 3)]), ("arrlit", [("int", 1), ("maplit", [(("str", "a"), ("int", 1))]), ("arrlit", [("int", 7)])]),
+             ("maplit", []), ("maplit", [(("str", "a"), ("int", 1)), (("str", "b"), ("arrlit", [("int", 1)]))]), ("int", 5)]
+    ks = [("int", i) for i in (-4, -3, -1, 0, 1, 3, 4)] + [("str", "a"), ("str", "b"), ("str", ""), ("bool", True)]
+    fns, body, alone = [], [], []
+    for init in inits:
+        n = len(init[1]) if init[0] == "arrlit" else None
+        for kind in ("assign", "unset"):
+            for idx in [[k] for k in ks] + [[k, k2] for k in ks for k2 in (("str", "k"), ("int", 1), ("int", 2), ("int", -1))]:
+                if kind == "assign" and n is not None and idx[0][0] == "int" and idx[0][1] > n + 1:
+                    continue          # null-gap: outside the model
+                if kind == "assign" and len(idx) == 2 and idx[1] == ("int", 2) and not (init is inits[2] and idx[0] in (("int", 3), ("int", -1))):
+                    continue          # second-level index 2 on a fresh/one-element array: null-gap
+                name = "g%d" % (len(fns) + len(alone))
+                st = ("assign", ("local", "xs"), idx, ("int", 5), False) if kind == "assign" else ("unset", ("local", "xs"), idx)
+                fd = {"name": name, "params": [], "ret": "any", "body": [("assign", ("local", "xs"), [], init, False), st, ("return", ("local", "xs"))]}
+                em = ("emit1", ("maplit", [(("str", "r"), ("call", name, []))]))
+                if kind == "assign" and len(idx) == 2 and n is not None and idx[0] == ("int", n + 1):
+                    # auto-extend with a further index: a program of its own (on a tree without fix 310ab990d the first such
+                    # assignment converts the shared NULL constant, and every later one in the same program sees it)
+                    alone.append((fd, em))
+                    continue
+                fns.append(fd)
+                body.append(em)
+    for j in range(0, len(fns), 150):
+        p = {"funcs": fns[j:j + 150], "begin": [], "main": [], "end": [body[j:j + 150]]}
+        cases.append({"prog": p, "text": G.mlr_prog(p), "inputs": [], "quiet": False})
+    for fd, em in alone:
+        p = {"funcs": [fd], "begin": [], "main": [], "end": [[em]]}
+        cases.append({"prog": p, "text": G.mlr_prog(p), "inputs": [], "quiet": False})
     # gate table: every declared type x every kind of value, inside a function so that a rejected assignment is an error VALUE
     for ty in ["var", "int", "num", "str", "bool", "map", "float", "arr", "funct"]:
         f = {"name": "fa", "params": [("any", "aa")], "ret": "any", "body": [("define", ty, "t", ("local", "aa")), ("return", ("str", "ok"))]}
@@ -493,6 +559,33 @@ def cells(ctx, bits):
                     break
 
 
+NEW_CONSTRUCTS = ("arrlit", "slice", "posname", "posval", "assignposname", "assignposval", "emitf")
+
+
+def constructs_of(x, acc):
+    """tags of the newer constructs occurring in a generated program (for the input-distribution record)"""
+    if isinstance(x, tuple):
+        if x and isinstance(x[0], str):
+            if x[0] in NEW_CONSTRUCTS:
+                acc.add(x[0])
+            if x[0] in ("for1", "for2") and isinstance(x[2 if x[0] == "for1" else 3], tuple) and x[2 if x[0] == "for1" else 3][0] in ("arrlit", "slice"):
+                acc.add("for_over_array")
+            if x[0] == "assign" and x[1][1] in G.ARRL + G.OOSARR and x[2]:
+                acc.add("array_indexed_assign")
+            if x[0] == "unset" and x[1][1] in G.ARRL + G.OOSARR and x[2]:
+                acc.add("array_unset")
+            if x[0] == "local" and len(x) == 2 and x[1] in G.ARRL:
+                acc.add("array_variable")
+        for y in x:
+            constructs_of(y, acc)
+    elif isinstance(x, list):
+        for y in x:
+            constructs_of(y, acc)
+    elif isinstance(x, dict):
+        for y in x.values():
+            constructs_of(y, acc)
+
+
 def correspondence(ctx, bits):
     n = 240 if ctx.tier == "quick" else 4000
     progs = []
@@ -508,6 +601,10 @@ def correspondence(ctx, bits):
         if o["class"] in ("hang", "unparseable", "driver-error"):
             ctx.dist("skipped_" + o["class"])
             continue
+        if o["class"] == "mlr_error" and "internal coding error" in (o.get("stderr") or ""):
+            # the tree stopped on one of its own internal checks (N2 in c14.findings.md: not understood well enough to model): skipped, counted
+            ctx.dist("skipped_impl_internal_coding_error")
+            continue
         if o["class"] == "panic":
             ctx.violation({"broken": "panic", "program": c["text"], "inputs": c["inputs"], "stderr": o["stderr"], "class": "panic"})
             continue
@@ -521,6 +618,16 @@ def correspondence(ctx, bits):
     ctx.cov["correspondence"] = {"programs": len(progs), "evaluated": len(terms), "agree": hist[0], "disagree": hist[1],
                                  "model_out_of_fuel_skipped": hist[2], "outside_fragment_skipped": hist[3], "coq_failed": hist[-1]}
     for (c, o), code in zip(meta, codes):
+        acc = set()
+        constructs_of(c["prog"], acc)
+        for tag in acc:
+            ctx.dist("reach_" + tag)
+            if code == 0:
+                ctx.dist("agree_" + tag)
+        if code == 3:
+            ctx.dist("skipped_outside_fragment")
+        if code == 2:
+            ctx.dist("skipped_out_of_fuel")
         ctx.count((c["text"], c["inputs"], c["quiet"]), nontrivial=(code == 0))
         if code == 0 and len(ctx.cov["samples"]) < 4:
             ctx.sample({"program": c["text"], "inputs": c["inputs"], "observed_class": o["class"], "out": str(o.get("out"))[:400]})
@@ -530,7 +637,8 @@ def correspondence(ctx, bits):
     for (c, o), code in zip(meta, codes):
         if code == 1 and reported < 5:
             reported += 1
-            ctx.violation({"broken": "correspondence C14.Harness.classify", "program": c["text"], "inputs": c["inputs"], "quiet": c["quiet"],
+            ctx.violation({"broken": "correspondence C14.Harness.classify", "class": NULLCLS if o.get("null_corrupted") else None,
+                           "program": c["text"], "inputs": c["inputs"], "quiet": c["quiet"],
                            "observed": {k: o.get(k) for k in ("class", "out", "stderr")}, "variant_bits": bits,
                            "coq_case": case_term(bits, c["prog"], c["quiet"], c["inputs"], o)})
 
@@ -601,6 +709,35 @@ def oracle_table(rng):
               'func tick(): map { @calls["count"] += 1; return @calls } func two(map x, map y): map { return {"first": x["count"], "second": y["count"]} } $* = mapsum($*, two(tick(), tick())); $total = @calls["count"]'.replace("$* = mapsum($*, two(tick(), tick()))", "t = two(tick(), tick()); $first = t[\"first\"]; $second = t[\"second\"]"),
               [[("x", "5")], [("x", "7")]],
               [R(("x", I(5)), ("first", I(1)), ("second", I(2)), ("total", I(2))), R(("x", I(7)), ("first", I(3)), ("second", I(4)), ("total", I(4)))]))
+    # arrays (reference-main-arrays.md): 1-up, negative aliases, inclusive slices, out-of-bounds reads absent / slices trimmed,
+    # auto-extend by one, unset shifts, by value; auto-create below maps makes maps even for int keys (reference-main-maps.md)
+    A = lambda *xs: ("arr", list(xs))
+    t.append(("array-1-up-and-negative-aliases", 'end { x = [10, 20, 30, 40, 50]; print x[1]; print x[5]; print x[-1]; print x[-5]; print x[2] == x[-4]; print is_absent(x[6]) . is_absent(x[0]) . is_absent(x[-6]) }', [],
+              [("s", "10"), ("s", "50"), ("s", "50"), ("s", "10"), ("s", "true"), ("s", "truetruetrue")]))
+    t.append(("array-inclusive-slices", 'end { x = [10, 20, 30, 40, 50]; emit1 {"a": x[2:3], "b": x[-2:-1], "c": x[4:9], "d": x[3:2], "e": x[:2], "f": x[4:], "g": "hello"[2:3], "h": "hello"[-2:-1]} }', [],
+              [R(("a", A(I(20), I(30))), ("b", A(I(40), I(50))), ("c", A(I(40), I(50))), ("d", A()), ("e", A(I(10), I(20))), ("f", A(I(40), I(50))), ("g", S("el")), ("h", S("lo")))]))
+    t.append(("array-auto-extend-by-one", 'end { x = []; x[1] = "a"; x[2] = "b"; x[length(x) + 1] = %d; emit1 {"x": x, "n": length(x)} }' % k, [], [R(("x", A(S("a"), S("b"), I(k))), ("n", I(3)))]))
+    t.append(("array-assign-index-zero-is-error", 'end { x = [1, 2, 3]; x[0] = 9; print "no" }', [], "error"))
+    t.append(("array-assign-before-start-is-error", 'end { x = [1, 2, 3]; x[-4] = 9; print "no" }', [], "error"))
+    t.append(("array-assign-negative-alias", 'end { x = [1, 2, 3]; x[-1] = %d; x[-3] = "f"; emit1 {"x": x} }' % k, [], [R(("x", A(S("f"), I(2), I(k))))]))
+    t.append(("array-unset-shifts", 'end { x = [1, 2, 3, 4]; unset x[2]; emit1 {"x": x}; unset x[-1]; emit1 {"x": x} }', [], [R(("x", A(I(1), I(3), I(4)))), R(("x", A(I(1), I(3))))]))
+    t.append(("array-for-loops", 'end { for (e in [%d, "b"]) { print e } for (i, e in ["x", "y"]) { print i . ":" . e } }' % k, [], [("s", str(k)), ("s", "b"), ("s", "1:x"), ("s", "2:y")]))
+    t.append(("array-by-value-arguments", 'func f(arr a) { a[1] = 99; a[length(a) + 1] = 7; unset a[2]; return a } end { x = [%d, 2, 3]; y = f(x); emit1 {"inner": y, "outer": x} }' % k, [],
+              [R(("inner", A(I(99), I(3), I(7))), ("outer", A(I(k), I(2), I(3))))]))
+    t.append(("array-by-value-assignment", 'end { x = [1, [2, 3]]; y = x; y[2][1] = %d; @o = x; x[1] = 0; emit1 {"x": x, "y": y, "o": @o} }' % k, [],
+              [R(("x", A(I(0), A(I(2), I(3)))), ("y", A(I(1), A(I(k), I(3)))), ("o", A(I(1), A(I(2), I(3)))))]))
+    t.append(("auto-create-int-key-makes-map", 'end { @m[1][2] = %d; x = [1]; x[1]["k"] = 5; x[2]["j"] = 6; emit1 {"m": @m, "x": x} }' % k, [],
+              [R(("m", ("map", [("1", ("map", [("2", I(k))]))])), ("x", A(("map", [("k", I(5))]), ("map", [("j", I(6))]))))]))
+    t.append(("array-type-gate", 'end { arr a = [1]; a[2] = 2; a = {} }', [], "error"))
+    t.append(("array-type-gate-accepts", 'end { arr a = [1]; a[2] = 2; var v = [3]; emit1 {"a": a, "v": v, "t": typeof(a)} }', [], [R(("a", A(I(1), I(2))), ("v", A(I(3))), ("t", S("array")))]))
+    # positional names / values (reference-dsl-variables.md "Positional field names") and emitf (reference-dsl-output-statements.md)
+    t.append(("positional-name-and-value-reads", '$x = $[[1]] . ":" . $[[[1]]] . ":" . $[[-1]] . ":" . typeof($[[9]]) . typeof($[[[0]]])', [rec],
+              [R(("a", I(k)), ("b", S(w)), ("c", I(7)), ("x", S("a:%d:c:absentabsent" % k)))]))
+    t.append(("positional-name-assignment-renames", '$[[1]] = "A"; $[[5]] = "nope"', [rec], [R(("A", I(k)), ("b", S(w)), ("c", I(7)))]))
+    t.append(("positional-value-assignment", '$[[[2]]] = "new"; $[[[6]]] = "nope"; $[[[-1]]] = 0', [rec], [R(("a", I(k)), ("b", S("new")), ("c", I(0)))]))
+    t.append(("srec-assignment-non-map-is-error", '$* = 3', [rec], "error"))
+    t.append(("emitf-one-record-with-those-names", '@count += 1; @sum += $a; end { emitf @count, @sum }', [[("a", "5")], [("a", str(k))]],
+              [R(("a", I(5))), R(("a", I(k))), R(("count", I(2)), ("sum", I(5 + k)))]))
     t.append(("emit-by-names-is-grouping", '@sum[$a][$b] = $c; end { emit @sum, "a", "b" }', [[("a", "x"), ("b", "p"), ("c", "1")], [("a", "y"), ("b", "p"), ("c", "2")], [("a", "x"), ("b", "q"), ("c", "3")]],
               None))
     return t
